@@ -1,10 +1,13 @@
 ------------------------------- MODULE HtmMatchMC -------------------------------
 (* The matcher as a state machine, small scope:                                    *)
-(*   AddP2* ; New ; ( (AddP1+ | SelfCall) ; ChooseRad ; (ChooseK ; MechStep* ; MechDone | ChooseKs) )* *)
+(*   AddP2* ; New ; ( Overwrite | (AddP1+ | SelfCall) ; ChooseRad ; (ChooseK ; MechStep* ; MechDone | ChooseKs) )* *)
 (*  - the abstract state of a matcher is its own point list p2, frozen by New      *)
 (*    (StateFrozen); a call's allowed results are a function of (p2, call) only -  *)
 (*    no depth, no history - so every path through the machine is a behaviour the  *)
 (*    real Matcher / HTM.match must reproduce call by call (exported and replayed); *)
+(*  - Overwrite: the caller overwrites, in place, the arrays it built the matcher   *)
+(*    from (buf).  buf is not matcher state: the matcher is a snapshot, every later *)
+(*    call is still judged against p2;                                              *)
 (*  - Next (model checking): ChooseK picks ONE maxmatch and MechStep runs an        *)
 (*    implementation-shaped model of htmc.cc Matcher::match on the call (per        *)
 (*    first-set point: candidates from the triangle cover, distance filter          *)
@@ -27,13 +30,14 @@ CONSTANTS Kind,        \* "gc" | "rs"
           MaxN1,       \* searched sets of 1..MaxN1 points (plus the self-match p1 = p2)
           MaxCalls,    \* calls per matcher life
           PerPoint,    \* TRUE: also one radius per point
-          Deviation,   \* "none" | "lossy_cover" | "truncate_unsorted" (the two deviating variants are self-tests)
+          Deviation,   \* "none" | "lossy_cover" | "truncate_unsorted" | "fastpath_strict" (deviating variants: self-tests)
           DoExport,    \* TRUE: print every finished life as JSON
-          KMode        \* export runs only - "each": a call carries ONE maxmatch of KSet; "sweep": a call is made
+          KMode,       \* export runs only - "each": a call carries ONE maxmatch of KSet; "sweep": a call is made
                        \* with EVERY maxmatch of KSet, ascending, one after the other on the same matcher
+          MaxOw        \* how often the caller may overwrite, in place, the arrays the matcher was built from
 
-VARIABLES phase, p2, calls, cur, mech
-vars == <<phase, p2, calls, cur, mech>>
+VARIABLES phase, p2, ident, buf, calls, cur, mech
+vars == <<phase, p2, ident, buf, calls, cur, mech>>
 
 \* ---- catalogues ---------------------------------------------------------------------
 \* great circle: <<a, b>> = a + b*eps degrees along the circle.  0/360 = the seam (equator) ;
@@ -41,9 +45,10 @@ vars == <<phase, p2, calls, cur, mech>>
 GcPosQ == {<<0, 0>>, <<0, 1>>, <<0, -1>>, <<90, 0>>, <<180, 1>>}
 GcPosT == GcPosQ \cup {<<0, 2>>, <<90, -1>>, <<270, 0>>, <<45, 0>>}
 GcPosS == {<<a, b>> : a \in {0, 1, 45, 89, 90, 91, 179, 180, 181, 270, 359}, b \in -2..2}
-\* radii <<a, h>> = a + h*eps/2 : half steps never tie; <<0,0>> and <<180,0>> are the two ends of the range
-GcRadQ == {<<0, 1>>, <<0, 3>>, <<90, 1>>, <<180, -1>>}
-GcRadT == GcRadQ \cup {<<0, 0>>, <<0, 5>>, <<1, -1>>, <<89, 1>>, <<90, -1>>, <<179, 3>>, <<180, 0>>}
+\* radii <<a, h>> = a + h*eps/2 : ODD half steps never tie; <<0,0>> (identical points only) and <<180,0>> are the two
+\* ends of the range, <<0,2>> = one eps ties with neighbours
+GcRadQ == {<<0, 0>>, <<0, 1>>, <<0, 3>>, <<90, 1>>, <<180, -1>>}
+GcRadT == GcRadQ \cup {<<0, 2>>, <<0, 5>>, <<1, -1>>, <<89, 1>>, <<90, -1>>, <<179, 3>>, <<180, 0>>}
 GcRadS == GcRadT \cup {<<0, 7>>, <<2, 1>>, <<44, 1>>, <<45, -1>>, <<91, 3>>, <<135, 1>>, <<180, -3>>}
 
 \* rational sphere: unit vectors (x,y,z)/d
@@ -54,8 +59,8 @@ RsPosS == RsPosT \cup {<<1, 2, 2, 3>>, <<2, 2, 1, 3>>, <<-2, -2, -1, 3>>, <<0, -
                        <<2, 10, 11, 15>>, <<-10, 10, 5, 15>>, <<2, 5, -14, 15>>, <<0, -1, 0, 1>>, <<-3, -4, 0, 5>>,
                        <<12, 0, 5, 13>>, <<0, 5, -12, 13>>, <<14, 2, 5, 15>>}
 \* radii as cosines <<p, q>>: 1 (r = 0), 224/225, 24/25, 4/5, 3/5, 1/2, 0, -1/2, -4/5, -1 (r = 180); several tie exactly
-RsRadQ == {<<4, 5>>, <<1, 2>>, <<0, 1>>, <<-1, 1>>}
-RsRadT == RsRadQ \cup {<<1, 1>>, <<224, 225>>, <<24, 25>>, <<3, 5>>, <<-1, 2>>, <<-4, 5>>, <<2, 3>>}
+RsRadQ == {<<1, 1>>, <<4, 5>>, <<1, 2>>, <<0, 1>>, <<-1, 1>>}
+RsRadT == RsRadQ \cup {<<224, 225>>, <<24, 25>>, <<3, 5>>, <<-1, 2>>, <<-4, 5>>, <<2, 3>>}
 RsRadS == RsRadT \cup {<<8, 9>>, <<-2, 3>>, <<1, 3>>, <<-3, 5>>, <<99, 100>>, <<-99, 100>>, <<12, 13>>}
 
 \* scope "m" (great circle only) - micro-degree radii: the harness binds eps = 1e-7 degree, so the radii below are
@@ -80,24 +85,41 @@ ASSUME Kind = "rs" => \A p \in Pos : RsIsPoint(p)
 ASSUME Kind = "gc" => \A p \in Pos : GcIsPos(p)
 
 \* ---- the machine ------------------------------------------------------------------------
+\* state of the matcher: p2 (the point set it was built from) and ident (were equal points handed over bit-identically).
+\* buf is NOT matcher state: it is the present content of the caller's own arrays, which the caller may overwrite.
+\* calls is the history: events [op |-> "call", ...] and [op |-> "ow", buf |-> new content]
 NoCall  == [p1 |-> <<>>, rad |-> <<>>]
-NoMech  == [on |-> FALSE, i |-> 0, out |-> <<>>]
-Init == phase = "p2" /\ p2 = <<>> /\ calls = <<>> /\ cur = NoCall /\ mech = NoMech
+NoMech  == [on |-> FALSE, i |-> 0, out |-> <<>>, all |-> <<>>]
+Init == phase = "p2" /\ p2 = <<>> /\ ident = TRUE /\ buf = <<>> /\ calls = <<>> /\ cur = NoCall /\ mech = NoMech
+
+IsCall(e) == e.op = "call"
+NCalls    == Cardinality({n \in DOMAIN calls : IsCall(calls[n])})
+NOw       == Len(calls) - NCalls
+\* a pole may be written with any longitude: then two copies of it are the same point without being bit-identical
+HasPole(sq) == Kind = "gc" /\ \E t \in DOMAIN sq : sq[t][1] \in {90, 270} /\ sq[t][2] = 0
 
 AddP2 == /\ phase = "p2" /\ Len(p2) < MaxN2
          /\ \E p \in Pos : p2' = Append(p2, p)
-         /\ UNCHANGED <<phase, calls, cur, mech>>
+         /\ UNCHANGED <<phase, ident, buf, calls, cur, mech>>
 
-New == /\ phase = "p2" /\ Len(p2) >= 1              \* New(depth, p2): the depth is not part of the abstract state
+New == /\ phase = "p2" /\ Len(p2) >= 1              \* New(depth, arrays): the depth is not part of the abstract state
+       /\ \E id \in (IF HasPole(p2) THEN BOOLEAN ELSE {TRUE}) : ident' = id
+       /\ buf' = p2                                 \* the matcher is a snapshot of what the arrays hold now
        /\ phase' = "idle" /\ UNCHANGED <<p2, calls, cur, mech>>
 
-AddP1 == /\ phase \in {"idle", "p1"} /\ Len(calls) < MaxCalls /\ Len(cur.p1) < MaxN1
-         /\ \E p \in Pos : cur' = [cur EXCEPT !.p1 = Append(@, p)]
-         /\ phase' = "p1" /\ UNCHANGED <<p2, calls, mech>>
+\* the caller re-uses its arrays: every entry set to one catalogue point, or the content reversed
+OwSet == {[t \in DOMAIN buf |-> q] : q \in Pos} \cup {[t \in DOMAIN buf |-> buf[Len(buf) + 1 - t]]}
+Overwrite == /\ phase = "idle" /\ NOw < MaxOw /\ NCalls < MaxCalls
+             /\ \E nb \in OwSet \ {buf} : buf' = nb /\ calls' = Append(calls, [op |-> "ow", buf |-> nb])
+             /\ UNCHANGED <<phase, p2, ident, cur, mech>>
 
-SelfCall == /\ phase = "idle" /\ Len(calls) < MaxCalls          \* match the set against itself
+AddP1 == /\ phase \in {"idle", "p1"} /\ NCalls < MaxCalls /\ Len(cur.p1) < MaxN1
+         /\ \E p \in Pos : cur' = [cur EXCEPT !.p1 = Append(@, p)]
+         /\ phase' = "p1" /\ UNCHANGED <<p2, ident, buf, calls, mech>>
+
+SelfCall == /\ phase = "idle" /\ NCalls < MaxCalls          \* match the set against itself
             /\ cur' = [cur EXCEPT !.p1 = p2]
-            /\ phase' = "p1" /\ UNCHANGED <<p2, calls, mech>>
+            /\ phase' = "p1" /\ UNCHANGED <<p2, ident, buf, calls, mech>>
 
 RadVectors(n) ==                      \* one radius, or (n >= 2) a few per-point vectors built from the catalogue
     {<<r>> : r \in Radii} \cup
@@ -107,27 +129,28 @@ RadVectors(n) ==                      \* one radius, or (n >= 2) a few per-point
 
 ChooseRad == /\ phase = "p1" /\ Len(cur.p1) >= 1
              /\ \E rv \in RadVectors(Len(cur.p1)) : cur' = [cur EXCEPT !.rad = rv]
-             /\ phase' = "k" /\ UNCHANGED <<p2, calls, mech>>
+             /\ phase' = "k" /\ UNCHANGED <<p2, ident, buf, calls, mech>>
 
-CallWith(k) == [kind |-> Kind, p2 |-> p2, p1 |-> cur.p1, rad |-> cur.rad, k |-> k]
+CallWith(k) == [kind |-> Kind, p2 |-> p2, p1 |-> cur.p1, rad |-> cur.rad, k |-> k, ident |-> ident]
 KSet == IF Scope = "h" THEN {0, 1} ELSE {-1, 0, 1, 2, 3, MaxGroup(CallWith(0)) + 1}
 
 ChooseK ==                                \* model-checking flavour: one maxmatch, then the mechanism runs
     /\ phase = "k"
-    /\ \E k \in KSet : calls' = Append(calls, [p1 |-> cur.p1, rad |-> cur.rad, k |-> k])
+    /\ \E k \in KSet : calls' = Append(calls, [op |-> "call", p1 |-> cur.p1, rad |-> cur.rad, k |-> k])
     /\ cur' = NoCall
-    /\ phase' = "mech" /\ mech' = [on |-> TRUE, i |-> 1, out |-> <<>>]
-    /\ UNCHANGED p2
+    /\ phase' = "mech" /\ mech' = [on |-> TRUE, i |-> 1, out |-> <<>>, all |-> <<>>]
+    /\ UNCHANGED <<p2, ident, buf>>
 
 \* export flavour: the exported call record carries the list ks of maxmatch values it is to be made with
 ChooseKs ==
     /\ phase = "k"
     /\ \E ks \in (IF KMode = "sweep" THEN {VSortSet(KSet)} ELSE {<<k>> : k \in KSet}) :
-          calls' = Append(calls, [p1 |-> cur.p1, rad |-> cur.rad, ks |-> ks])
+          calls' = Append(calls, [op |-> "call", p1 |-> cur.p1, rad |-> cur.rad, ks |-> ks])
     /\ cur' = NoCall /\ phase' = "idle" /\ mech' = NoMech
-    /\ UNCHANGED p2
+    /\ UNCHANGED <<p2, ident, buf>>
 
-LastCall == LET e == calls[Len(calls)] IN [kind |-> Kind, p2 |-> p2, p1 |-> e.p1, rad |-> e.rad, k |-> e.k]
+\* the call is judged against the point set the matcher was BUILT from - never against buf
+LastCall == LET e == calls[Len(calls)] IN [kind |-> Kind, p2 |-> p2, p1 |-> e.p1, rad |-> e.rad, k |-> e.k, ident |-> ident]
 
 \* ---- implementation-shaped model of Matcher::match for one first-set point ------------------
 \* all orders of S that are non-decreasing in separation from p1[i] (std::sort is not stable)
@@ -140,41 +163,52 @@ Orderings(c, i, S) ==
 \* C13's cover clause); points outside may be among the candidates too - the filter removes them
 Candidates(c, i) ==
     IF Deviation = "lossy_cover" /\ N2(c) > 1 THEN 1..(N2(c) - 1) ELSE 1..N2(c)
-\* dis <= rad : exact ties may fall either way in floating point
+\* dis <= rad : exact ties may fall either way in floating point - except bit-identical points (dis = 0 exactly)
 Kept(c, i) ==
     LET cand == Candidates(c, i)
-        must == {j \in cand : RC(c, i, j) = -1}
-        ties == {j \in cand : RC(c, i, j) = 0}
+        must == cand \cap Must(c, i)
+        ties == (cand \cap May(c, i)) \ must
     IN {must \cup T : T \in SUBSET ties}
 Trunc(c, sq) == IF Limited(c) /\ Len(sq) > c.k THEN SubSeq(sq, 1, c.k) ELSE sq
-GroupOutputs(c, i) ==
-    IF Deviation = "truncate_unsorted"
-    THEN UNION {Orderings(c, i, VRange(Trunc(c, VSortSet(S)))) : S \in Kept(c, i)}      \* first k by index, then sorted
-    ELSE UNION {{Trunc(c, sq) : sq \in Orderings(c, i, S)} : S \in Kept(c, i)}
+\* one pass decides once which candidates are kept (S) and how ties sort (sq): the unlimited answer is sq, the limited
+\* answer its first k.  Deviating variants: truncation before the sort; a closest-only fast path for maxmatch = 1
+\* that compares strictly and so loses a nearest neighbour lying exactly on the radius
+LimGroups(c, i, S, sq) ==
+    IF Deviation = "truncate_unsorted" THEN Orderings(c, i, VRange(Trunc(c, VSortSet(S))))
+    ELSE IF Deviation = "fastpath_strict" /\ c.k = 1
+         THEN {Trunc(c, q) : q \in Orderings(c, i, {j \in S : RC(c, i, j) = -1})}
+         ELSE {Trunc(c, sq)}
 
 MechStep ==
     /\ phase = "mech" /\ mech.i <= N1(LastCall)
-    /\ \E g \in GroupOutputs(LastCall, mech.i) :
+    /\ \E S \in Kept(LastCall, mech.i) : \E sq \in Orderings(LastCall, mech.i, S) :
+       \E g \in LimGroups(LastCall, mech.i, S, sq) :
           mech' = [mech EXCEPT !.i = @ + 1,
-                               !.out = @ \o [t \in DOMAIN g |-> <<mech.i - 1, g[t] - 1>>]]
-    /\ UNCHANGED <<phase, p2, calls, cur>>
+                               !.out = @ \o [t \in DOMAIN g |-> <<mech.i - 1, g[t] - 1>>],
+                               !.all = @ \o [t \in DOMAIN sq |-> <<mech.i - 1, sq[t] - 1>>]]
+    /\ UNCHANGED <<phase, p2, ident, buf, calls, cur>>
 
 MechDone ==
     /\ phase = "mech" /\ mech.i > N1(LastCall)
-    /\ phase' = "idle" /\ UNCHANGED <<p2, calls, cur, mech>>
+    /\ phase' = "idle" /\ UNCHANGED <<p2, ident, buf, calls, cur, mech>>
 
-Finish == /\ phase = "idle" /\ Len(calls) >= 1 /\ phase' = "done" /\ UNCHANGED <<p2, calls, cur, mech>>
+Finish == /\ phase = "idle" /\ NCalls >= 1 /\ IsCall(calls[Len(calls)])
+          /\ phase' = "done" /\ UNCHANGED <<p2, ident, buf, calls, cur, mech>>
 
-Next       == AddP2 \/ New \/ AddP1 \/ SelfCall \/ ChooseRad \/ ChooseK \/ MechStep \/ MechDone
-NextExport == AddP2 \/ New \/ AddP1 \/ SelfCall \/ ChooseRad \/ ChooseKs \/ Finish
+Next       == AddP2 \/ New \/ Overwrite \/ AddP1 \/ SelfCall \/ ChooseRad \/ ChooseK \/ MechStep \/ MechDone
+NextExport == AddP2 \/ New \/ Overwrite \/ AddP1 \/ SelfCall \/ ChooseRad \/ ChooseKs \/ Finish
 Spec == Init /\ [][Next]_vars
 
 \* ---- properties -----------------------------------------------------------------------------
-\* the matcher's abstract state never changes after New: no call can influence a later one
-StateFrozen == [][phase # "p2" => p2' = p2]_vars
+\* the matcher's abstract state never changes after New: neither a call nor the caller overwriting its arrays
+\* (buf) can influence a later call
+StateFrozen == [][phase # "p2" => (p2' = p2 /\ ident' = ident)]_vars
 
-\* the implementation-shaped pass refines the property
-MechRefines == (phase = "mech" /\ mech.i > N1(LastCall)) => Accept(LastCall, ObsOfPairs(LastCall, mech.out))
+\* the implementation-shaped pass refines the property (with a positive limit: also "first k of the unlimited answer")
+MechObs(c) == [ObsOfPairs(c, mech.out) EXCEPT !.hasall = Limited(c),
+                                              !.all1 = [t \in DOMAIN mech.all |-> mech.all[t][1]],
+                                              !.all2 = [t \in DOMAIN mech.all |-> mech.all[t][2]]]
+MechRefines == (phase = "mech" /\ mech.i > N1(LastCall)) => Accept(LastCall, MechObs(LastCall))
 
 \* the property-level spec accepts its own reference result, and that result has the stated shape
 RefAccepted == (phase = "mech" /\ mech.i = 1) =>            \* once per call: the state right after ChooseK
@@ -185,5 +219,5 @@ RefAccepted == (phase = "mech" /\ mech.i = 1) =>            \* once per call: th
 
 \* ---- export ---------------------------------------------------------------------------------
 Export == (DoExport /\ phase = "done") =>
-              PrintT(<<"CASE", ToJson([kind |-> Kind, p2 |-> p2, calls |-> calls])>>)
+              PrintT(<<"CASE", ToJson([kind |-> Kind, p2 |-> p2, ident |-> ident, calls |-> calls])>>)
 =============================================================================
